@@ -249,6 +249,79 @@ class Scenario:
         return req, observed
 
 
+def thread_probes(ck, tier):
+    """two real threads, as in the running node (network thread admits a transaction, miner thread installs a new head):
+    the admitting thread is held at a chosen point (after one of the three validation steps) while the other thread
+    installs a head that spends the transaction's input; with the manager's lock covering validation + append the head
+    change waits and then evicts the transaction; whatever the interleaving, the pool invariant must hold afterwards"""
+    import threading
+    from skepticoin.networking import manager as MG
+    rng = ck.rng
+    keys = chaingen.Keys()
+    points = ['validate_non_coinbase_transaction_by_itself', 'validate_non_coinbase_transaction_in_coinstate',
+              'validate_no_duplicate_output_references_in_transactions']
+    for probe in range(3 if tier == 'quick' else 12):
+        point = points[probe % 3]
+        with chaingen.Env(period=50) as env:
+            tg = chaingen.TreeGen(env, keys, rng)
+            n = tg.genesis
+            for _ in range(4):
+                n = tg.extend(n, txs=[], fees=0)
+            main = list(tg.nodes)
+            av = sorted(tg.spendable(n))
+            ref, (val, _pk) = av[probe % len(av)]
+            tx = chaingen.signed_tx(keys, n.utxo, [ref], [(val, keys.pks[1])])
+            rival = chaingen.signed_tx(keys, n.utxo, [ref], [(val, keys.pks[2])])
+            nb = tg.extend(n, txs=[rival], fees=0)
+            with simnet.Net(seed=rng.getrandbits(30), t0=nb.view.time + 100) as net:
+                sn = nodeharness.SingleNode(net, chaingen.impl_state_from(main), [m.block for m in main[1:]], npeers=1)
+                sn.node.activate()
+                cm = sn.lp().chain_manager
+                new_cs = cm.coinstate.add_block(nb.block, nb.view.time + 1)
+                validated, switched = threading.Event(), threading.Event()
+                orig = getattr(MG, point)
+                admitting = []
+
+                def held(*a, _o=orig, **kw):
+                    r_ = _o(*a, **kw)
+                    if threading.current_thread() in admitting:
+                        validated.set()
+                        switched.wait(0.4)
+                    return r_
+                setattr(MG, point, held)
+                res = {}
+                try:
+                    def admit():
+                        res['ok'] = cm.add_transaction_to_pool(tx)
+
+                    def switch():
+                        validated.wait(2)
+                        cm.set_coinstate(new_cs)
+                        switched.set()
+                    ta, tb = threading.Thread(target=admit), threading.Thread(target=switch)
+                    admitting.append(ta)
+                    ta.start(); tb.start(); ta.join(5); tb.join(5)
+                finally:
+                    setattr(MG, point, orig)
+                pool = list(cm.transaction_pool)
+                ck.case(('threads', probe), kind='threads/held-after-' + point.replace('validate_', '')[:28],
+                        sample={'held_after': point, 'admitted': res.get('ok'), 'pool_after': len(pool)} if probe < 2 else None)
+                rp = {'kind': 'threads', 'probe': probe, 'schedule': 'network thread: add_transaction_to_pool(T) held after %s | '
+                      'miner thread: set_coinstate(head + block spending the input of T) | network thread resumes' % point}
+                if ta.is_alive() or tb.is_alive():
+                    ck.violation('pool-threads-deadlock', 'transaction admission and head installation did not both finish', rp)
+                    continue
+                if bytes(cm.coinstate.current_chain_hash) != nb.id:
+                    ck.violation('head-not-installed', 'the new head was not installed', rp)
+                for t in pool:
+                    tvv = spec.TxView(t)
+                    if not (spec_tx_by_itself(tvv) and spec_tx_in_state(tvv, nb.utxo)):
+                        ck.violation('pooled-tx-invalid-at-head', 'after a transaction admission on the network thread interleaved '
+                                     'with a head change on the miner thread, a pending transaction is not valid against the '
+                                     'ledger state of the current head', rp)
+                        break
+
+
 def run(tier, seed):
     ck = common.Check('C13', tier, seed)
     ck.rule = ('one real node (ChainManager, handlers, real store) with scripted peers; random interleavings of transaction '
@@ -259,7 +332,7 @@ def run(tier, seed):
                'whole run against the extracted node model; non-trivial = distinct (scenario, step)')
     ck.trusted += ['extraction + OCaml driver', 'simnet (fake sockets/selector/clock)', 'chain generator',
                    "validators' verdicts computed by calling the real validators outside the handlers (NodeModel inputs)"]
-    ck.assumptions += ['single network thread (the lock is not modelled)']
+    ck.assumptions += ['the model is sequential; the lock is exercised by three two-thread probes (admission held after each validation step while another thread installs a conflicting head), not modelled']
     r = ck.build(extract=True)
     reqs = []
     obs = []
@@ -278,6 +351,11 @@ def run(tier, seed):
                 continue
             reqs.append(req)
             obs.append(observed)
+    try:
+        thread_probes(ck, tier)
+    except Exception:
+        import traceback
+        ck.disagree('thread probe crashed: %s' % traceback.format_exc()[-500:], {})
     if r.ok and reqs:
         outs = model.run_batch(reqs)
         for k, (o, observed) in enumerate(zip(outs, obs)):
